@@ -18,6 +18,9 @@ pub enum C10Case {
     Map { kt: Kt, buckets: Buckets, xs: Vec<u64>, ys: Vec<u64> },
     /// byte/string keys: all From forms of the same bytes address one entry
     Bytes { kt: Kt, keys: Vec<Vec<u8>> },
+    /// thousands of short keys of mixed lengths (the key file passes 128 KiB buffer-chunk boundaries
+    /// with records at every alignment): what the iterators return is exactly what was put
+    ManyKeys { kt: Kt, n: u32, seed: u32 },
     /// a whole session on a typed map (mostly the integer key types) in a table of 1-3 buckets:
     /// every key keeps addressing its own entry through puts, overwrites, deletes and re-puts
     Hist(History),
@@ -160,6 +163,11 @@ fn strategy(tier: Tier, index: u64) -> BoxedStrategy<C10Case> {
                 ys.extend(xs.iter().take(50).copied());
                 C10Case::Map { kt, buckets: Buckets::BucketsSize(1), xs, ys }
             })
+            .boxed();
+    }
+    if index % 100 == 17 {
+        return (proptest::sample::select(vec![Kt::Bytes, Kt::String]), 9000u32..=20000, any::<u32>())
+            .prop_map(|(kt, n, seed)| C10Case::ManyKeys { kt, n, seed })
             .boxed();
     }
     if index % 5 == 4 {
@@ -433,6 +441,73 @@ fn check_bytes(kt: Kt, keys: &[Vec<u8>], w: &WCtx, rep: &mut Report) -> Result<(
     Ok(())
 }
 
+fn check_many(kt: Kt, n: u32, seed: u32, w: &WCtx, rep: &mut Report) -> Result<(), Failure> {
+    let ctx = w.ctx();
+    let r = guarded(&ctx, || {
+        let db = abyssiniandb::open_file(&ctx.dir).map_err(|e| Failure::new("error", None, format!("open_file: {e}")))?;
+        let mut m = open_map(&db, "t", kt, &Params::plain(Buckets::BucketsSize(4096)))
+            .map_err(|e| Failure::new("error", None, format!("open map: {e}")))?;
+        // distinct keys: a counter in base 251 (digits 1..=251, no trailing ambiguity), padded with
+        // seed-dependent non-zero bytes to a length of 1..=16
+        let mut keys: std::collections::BTreeSet<Vec<u8>> = std::collections::BTreeSet::new();
+        let mut x = seed as u64 | 1;
+        for i in 0..n {
+            crate::exec::tick();
+            let mut k = Vec::new();
+            let mut c = i;
+            loop {
+                k.push((c % 251) as u8 + 1);
+                c /= 251;
+                if c == 0 {
+                    break;
+                }
+            }
+            k.push(0xFF);
+            x ^= x << 13;
+            x ^= x >> 7;
+            x ^= x << 17;
+            let want = 1 + (x % 16) as usize;
+            while k.len() < want {
+                k.push(1 + ((x >> (8 * (k.len() % 8))) % 250) as u8);
+            }
+            if kt == Kt::String {
+                for b in k.iter_mut() {
+                    *b = b'!' + (*b % 90);
+                }
+                // keep the keys distinct after the mapping to text
+                let tag = format!("{i:x}");
+                k.truncate(16usize.saturating_sub(tag.len() + 1));
+                k.push(b'~');
+                k.extend_from_slice(tag.as_bytes());
+            }
+            let v = [(i % 251) as u8];
+            m.put(&k, &v).map_err(|e| Failure::new("error", None, format!("put: {e}")))?;
+            keys.insert(k);
+        }
+        for f in [2u8, 0, 4] {
+            let out = m.iterate(f, None, 0);
+            let got: std::collections::BTreeSet<Vec<u8>> = out.items.iter().filter_map(|(k, _)| k.clone()).collect();
+            if out.items.len() != keys.len() || got != keys {
+                let bad = got.difference(&keys).next().cloned();
+                bail!(
+                    "{} map with {} short keys: {} returns {} keys, {} of them distinct; a key that was never put: {:?}",
+                    kt.name(),
+                    keys.len(),
+                    ITER_FLAVOURS[f as usize],
+                    out.items.len(),
+                    got.len(),
+                    bad
+                );
+            }
+        }
+        Ok(Report::default())
+    });
+    w.cleanup(&ctx.dir);
+    r?;
+    rep.bump("many_short_keys");
+    Ok(())
+}
+
 fn run_c10(c: &C10Case, w: &WCtx) -> Result<Report, Failure> {
     let mut rep = Report::default();
     let ctx0 = Ctx {
@@ -451,6 +526,7 @@ fn run_c10(c: &C10Case, w: &WCtx) -> Result<Report, Failure> {
         }
         C10Case::Map { kt, buckets, xs, ys } => check_map(*kt, *buckets, xs, ys, w, &mut rep)?,
         C10Case::Bytes { kt, keys } => check_bytes(*kt, keys, w, &mut rep)?,
+        C10Case::ManyKeys { kt, n, seed } => check_many(*kt, *n, *seed, w, &mut rep)?,
         C10Case::Hist(h) => {
             let r = run_history(h, w)?;
             rep.bump("typed_sessions");
@@ -469,7 +545,7 @@ impl Prop for C10 {
         "C10"
     }
     fn rule(&self) -> String {
-        "integer pairs (x, y): x from {2^k, 2^k +- 1, -2^k, 2^(7j) +- 1 (vu64 steps), i64::MIN/MAX, u64::MAX, random, small}, y from {x, x+-1, x ^ bit, x ^ high bit, byteswap(x), low 32 bits of x, independent}; laws for DbU64, DbI64, DbVu64: int -> key -> int round trip (by value and by reference), From<T> == From<&T>, key(x) == key(y) <=> x == y, cmp_u8 == Equal <=> x == y, x == y => equal hash_value, vu64 keys equal the documented encoding (independent encoder); typed maps (tables 1..4096): put(x) then get(y) hits <=> x == y, keys of iter() convert back to exactly the inserted integers; byte/string keys: families of prefixes, embedded NULs, non-UTF-8: every From form of the same bytes addresses the same entry, different bytes never, keys() returns the bytes put (insertion order rotated, tables of 1 / 3 / 16 buckets); every 5th case a whole session (5-200 calls: put, overwrite, delete, re-put, get, traversal, reopen) on a typed map with 2-14 keys in a table of 1-3 buckets, mostly the integer key types, special byte keys (empty, NULs, prefixes, equal-hash families) otherwise, results vs the model and independent decode at close. evaluations counts integer pairs + maps + key families. Non-trivial and distinct: a pair whose members differ only above bit 27, or a pair at a vu64 width boundary (digest of the pair); a typed map with a key above bit 27; a key family with a non-UTF-8 key; a session with insert, overwrite and delete of present keys."
+        "integer pairs (x, y): x from {2^k, 2^k +- 1, -2^k, 2^(7j) +- 1 (vu64 steps), i64::MIN/MAX, u64::MAX, random, small}, y from {x, x+-1, x ^ bit, x ^ high bit, byteswap(x), low 32 bits of x, independent}; laws for DbU64, DbI64, DbVu64: int -> key -> int round trip (by value and by reference), From<T> == From<&T>, key(x) == key(y) <=> x == y, cmp_u8 == Equal <=> x == y, x == y => equal hash_value, vu64 keys equal the documented encoding (independent encoder); typed maps (tables 1..4096): put(x) then get(y) hits <=> x == y, keys of iter() convert back to exactly the inserted integers; byte/string keys: families of prefixes, embedded NULs, non-UTF-8: every From form of the same bytes addresses the same entry, different bytes never, keys() returns the bytes put (insertion order rotated, tables of 1 / 3 / 16 buckets); every 100th case 9000-20000 distinct keys of 1-16 bytes in mixed lengths (the key file passes several 128 KiB chunk boundaries with records at every alignment): keys(), iter() and into_iter() return exactly the keys put; every 5th case a whole session (5-200 calls: put, overwrite, delete, re-put, get, traversal, reopen) on a typed map with 2-14 keys in a table of 1-3 buckets, mostly the integer key types, special byte keys (empty, NULs, prefixes, equal-hash families) otherwise, results vs the model and independent decode at close. evaluations counts integer pairs + maps + key families. Non-trivial and distinct: a pair whose members differ only above bit 27, or a pair at a vu64 width boundary (digest of the pair); a typed map with a key above bit 27; a key family with a non-UTF-8 key; a session with insert, overwrite and delete of present keys."
             .to_string()
     }
     fn n_cases(&self, tier: Tier) -> u64 {
@@ -486,7 +562,7 @@ impl Prop for C10 {
             |c: &C10Case| run_c10(c, w),
             |c, rep| {
                 (
-                    rep.has("map_with_key_above_bit27") || rep.has("non_utf8_key") || rep.has("typed_session_with_delete_overwrite_reinsert"),
+                    rep.has("map_with_key_above_bit27") || rep.has("non_utf8_key") || rep.has("typed_session_with_delete_overwrite_reinsert") || rep.has("many_short_keys"),
                     digest_of(c),
                 )
             },
